@@ -22,10 +22,15 @@ for n in names:
     if sh(["git", "apply", "--check", os.path.join(d, "patch.diff")], "/repo")[0] != 0:
         print(n, "patch does not apply"); continue
     sh(["git", "apply", os.path.join(d, "patch.diff")], "/repo")
+    ev = f"/verif/evidence/{pid}.json"
+    keep = open(ev).read() if os.path.exists(ev) else None
     try:
         rc, out = sh(["./check", pid, "--tier", "quick"], "/verif")
     finally:
         sh(["git", "checkout", "--", "."], "/repo")
+        sh(["cargo", "build", "--release", "--offline", "--quiet", "--bin", "cgv-" + pid.lower()], "/verif/harness")
+        if keep is not None:
+            open(ev, "w").write(keep)
     first = [l.strip() for l in out.splitlines() if l.startswith("VIOLATION") or l.startswith("  clause") or l.startswith("INCONCLUSIVE")][:2]
     meta["detected_by"] = {"check": f"./check {pid} --tier quick", "exit": rc, "detected": rc == 1, "first_lines": first}
     json.dump(meta, open(mp, "w"), indent=1)
